@@ -180,8 +180,19 @@ def run(rep, tier, rng):
                     add(f"rel_hrr_positive {algs.enc_vec(v)} {REL}", dict(base, op="property-positive"), ("p-positive", al, d, tuple(props)))
                 if not props:
                     add(f"rel_unit_norm {algs.enc_vec(v)} {REL}", dict(base, op="property-none-unit"), ("p-none", al, d))
-                # the generator keeps its properties: later vectors have them too
+                if al != "AHrr" and set(props) == {"unitary", "positive"}:
+                    ident = A.identity_element(d, sidedness=E.RIGHT)
+                    if not (np.allclose(v, ident) and warned):
+                        rep.violation(f"{al} unitary+positive vector is not the identity with a warning", {"case": base})
+                # the generator keeps its properties: later vectors have them too - also when the consumer modifies, in place, the
+                # vectors it was handed before drawing the next one
+                prev = v
                 for later in (1, 2):
+                    try:
+                        prev *= -3.0
+                        prev += 1.0
+                    except (ValueError, TypeError):
+                        pass
                     with warnings.catch_warnings():
                         warnings.simplefilter("ignore")
                         ol = c.outcome(lambda: next(gen_box[0]))
@@ -194,10 +205,15 @@ def run(rep, tier, rng):
                         add(f"rel_unitary {al} {algs.enc_vec(vl)} {REL}", dict(bl, op="property-unitary-later-vector"), ("p-unitary", al, d, tuple(props), later))
                     if "positive" in props and al == "AHrr":
                         add(f"rel_hrr_positive {algs.enc_vec(vl)} {REL}", dict(bl, op="property-positive-later-vector"), ("p-positive", al, d, tuple(props), later))
-                if al != "AHrr" and set(props) == {"unitary", "positive"}:
-                    ident = A.identity_element(d, sidedness=E.RIGHT)
-                    if not (np.allclose(v, ident) and warned):
-                        rep.violation(f"{al} unitary+positive vector is not the identity with a warning", {"case": base})
+                    if al != "AHrr" and set(props) == {"unitary", "positive"}:
+                        rep.case(("p-identity-later", al, d, later))
+                        rep.count("square-algebra-positive-unitary-later-vector")
+                        if not np.allclose(vl, A.identity_element(d, sidedness=E.RIGHT)):
+                            rep.violation(f"{al} unitary+positive vector number {later + 1} (d={d}) is not the identity after the consumer modified the previous one in place",
+                                          {"case": bl, "python": algs.PRELUDE + "from nengo_spa import vector_generation as vg\n" + f"A = {algs.alg_py(al)}\n"
+                                           f"g = vg.VectorsWithProperties({d}, {{'unitary', 'positive'}}, A, rng=np.random.RandomState(1))\nimport warnings; warnings.simplefilter('ignore')\n"
+                                           "a = next(g); ref = a.copy()\ntry:\n    a *= -3.0\nexcept ValueError:\n    pass\nb = next(g)\nassert np.allclose(b, ref), b\n"})
+                    prev = ol[1] if isinstance(ol[1], np.ndarray) else vl
 
     # ---- EquallySpacedPositiveUnitaryHrrVectors ------------------------------------------------------------
     for d in ([2, 3, 4, 5, 8, 16] if quick else list(range(2, 25)) + [32, 64]):
